@@ -256,6 +256,63 @@ def run(ctx: Ctx) -> None:
     for k in [k for k in rep.floors if k.startswith("C13.")]:
         rep.floors["C01.R8/" + k] = rep.floors.pop(k)
 
+    # ---- R10: the root keeps the path its decorator will ask for ---------------------------------------------------
+    rep.rule("C01.R10", "attaching the explicit path of dds.keep to the root interactions does not drop a path the root already has (its "
+                        "@data_function path): the decorated function still asks for that path at run time")
+    n10 = 0
+    tcfg = cfg_of(top)
+    for n in top.own_nodes():
+        if isinstance(n, ast.Assign) and isinstance(n.value, ast.Call) and isinstance(n.value.func, ast.Attribute) and n.value.func.attr == "_replace" \
+                and any(k.arg == "store_path" for k in n.value.keywords) and isinstance(n.value.func.value, ast.Name):
+            n10 += 1
+            x = n.value.func.value.id
+            free = [b for b in tcfg.nodes if b.kind == "branch" and isinstance(b.ast, ast.Compare) and len(b.ast.ops) == 1 and isinstance(b.ast.left, ast.Attribute)
+                    and b.ast.left.attr == "store_path" and isinstance(b.ast.left.value, ast.Name) and b.ast.left.value.id == x
+                    and isinstance(b.ast.comparators[0], ast.Constant) and b.ast.comparators[0].value is None
+                    and ((isinstance(b.ast.ops[0], ast.Is) and b.label == "T") or (isinstance(b.ast.ops[0], ast.IsNot) and b.label == "F"))]
+            desc = f"`{unparse(n, 50)}` replaces the root's path only when it has none of its own"
+            w = dominated(ctx, top, n, free) if free else [f"{top.loc(n)}: no test of `{x}.store_path is None` precedes the replacement"]
+            if w is None:
+                rep.ok("C01.R10", top.qname, desc, top.loc(n))
+            else:
+                rep.bad("C01.R10", top.qname, desc, top.loc(n), w + [
+                    "`@dds.data_function('/acc') def acc(): ...` kept under another path, `dds.keep('/snap', acc)`: the analysis records '/snap' in place of '/acc', "
+                    "then the decorator calls keep('/acc', ..) inside the evaluation and the lookup of '/acc' in the evaluation's path map raises KeyError "
+                    "(plain execution returns the value)"], "root-path-replaced", what="keeping a data function under another path drops its own path from the path map (KeyError at run time)")
+    rep.floor("C01.R10", n10, 1)
+
+    # ---- R9: the text that is hashed is the text that was read -----------------------------------------------------
+    rep.rule("C01.R9", "source text obtained with getsource reaches the analysis (body lines that are hashed) through lossless steps only "
+                       "(split / join / slicing): no regex substitution, strip, replace or case folding on the way")
+    LOSSY_ATTR = {"sub", "subn", "strip", "rstrip", "lstrip", "replace", "lower", "upper", "casefold", "expandtabs", "translate", "removeprefix", "removesuffix"}
+    n9 = 0
+    for g in list(prog.funcs.values()):
+        if g.module.name not in ("dds.introspect", "dds._introspect_indirect"):
+            continue
+        srcs_ = [n for n in g.own_nodes() if isinstance(n, ast.Call) and unparse(n.func).split(".")[-1] in ("getsource", "getsource_class")]
+        if not srcs_:
+            continue
+        for call in [n for n in g.own_nodes() if isinstance(n, ast.Call)]:
+            fs_, _d = prog.callees(g, call, ctx._types)
+            if not any(x.module.name in ("dds.introspect", "dds._introspect_indirect") and x.name.startswith(("inspect_", "_inspect")) for x in fs_):
+                continue
+            for a in list(call.args) + [k.value for k in call.keywords]:
+                sl = ctx.slicer(follow_calls=True).slice(g, a)
+                if sl.find(lambda f_, x: any(x is s_ for s_ in srcs_)) is None:
+                    continue
+                n9 += 1
+                desc = f"`{unparse(a, 30)}` (source text handed to {unparse(call.func, 40)}) is the text returned by getsource, split into lines"
+                lossy = sl.find(lambda f_, x: isinstance(x, ast.Call) and ((isinstance(x.func, ast.Attribute) and x.func.attr in LOSSY_ATTR)
+                                                                        or (prog.dotted(f_, x.func) or "") in ("re.sub", "re.subn", "textwrap.shorten")))
+                if lossy is None:
+                    rep.ok("C01.R9", g.qname, desc, g.loc(call))
+                else:
+                    rep.bad("C01.R9", g.qname, desc, g.loc(call), lossy.chain() + [
+                        f"{lossy.func.loc(lossy.node)}: `{unparse(lossy.node, 70)}` rewrites the source text before it is hashed: two function bodies that differ only in what "
+                        "the rewrite removes (text after ' #' inside a string literal, trailing blanks inside a multi-line string) share one signature and the stale blob is served"],
+                        stmt_key(call) + unparse(a, 20), what="the function source is normalised by a lossy text rewrite before hashing")
+    rep.floor("C01.R9", n9, 2)
+
     # ---- R6 -------------------------------------------------------------------------------
     ro = prog.funcs.get("dds._retrieve_objects.ObjectRetrieval.retrieve_object")
     if ro is None:
